@@ -87,13 +87,14 @@ func solveAll(ctx *SMTCtx, obls []*Obligation, dir string, timeoutS int, workers
 				text := strings.TrimSuffix(full, gv.String())
 				ob.Size = len(text)
 				file := filepath.Join(dir, fmt.Sprintf("q%05d.smt2", i))
+				ob.File = file
 				os.WriteFile(file, []byte(full), 0o644)
 				t0 := time.Now()
 				var agree []string
 				type sres struct {
 					name, res, out string
 				}
-				if ob.Kind == "cover" {
+				if strings.HasPrefix(ob.Kind, "cover") {
 					// vacuity guard: expected answer is sat; quantified contexts often give unknown
 					res, out, _ := runSolver(solvers[0], file, 2)
 					ob.Result, ob.Solver = res, solvers[0].name
